@@ -540,6 +540,9 @@ def check_several(sub, case):
 
     header, r, bad, limit = case["header"], case["rows"], set(case["bad"]), case["limit"]
     rows = _several_rows(header, r, bad)
+    if case.get("blank"):
+        # the first bad row is a blank line: the reader delivers a row without any field
+        rows[min(bad) - 1] = []
     text = "".join(",".join(row) + "\n" for row in rows)
     cid_rows_ = [["D", "Format", "Delimited"], ["D", "Header", str(header)],
                  ["F", "id", "", "", "", "Integer", "0...99"], ["F", "title", "", "", "", "Text", ""]]
@@ -583,6 +586,9 @@ def _several_cases(max_rows):
                     for limit in [None] + list(range(0, r + 2)):
                         cases.append({"family": "several-bad", "header": header, "rows": r, "bad": list(bad),
                                       "limit": limit})
+                        if count == 2:
+                            cases.append({"family": "several-bad", "header": header, "rows": r, "bad": list(bad),
+                                          "limit": limit, "blank": True})
     return cases
 
 
